@@ -32,7 +32,7 @@ def run(idx, rep, tier):
     safediv.r_roundtrip(idx, rep, modules=["distance3d.containment"], floor=1)
     hydro.r_invalidate(idx, rep, relevant_to="aabb", floor=2)      # RigidBody.aabb() is the root box of a cached tree
     degree.r_degree(idx, rep, modules=sorted(MODS), floor=20)
-    purity.r_pureargs(idx, rep, ["distance3d.containment", "distance3d.colliders", "distance3d.utils"], floor=10)
+    purity.r_pureargs(idx, rep, ["distance3d.containment", "distance3d.colliders", "distance3d.utils", "distance3d.hydroelastic_contact._mesh_processing", "distance3d.hydroelastic_contact._rigid_body"], floor=10)
     onsegment.r_halfsize(idx, rep, ["distance3d.containment", "distance3d.colliders"], floor=2)
     misc2.r_dupcond(idx, rep, [m.name for m in idx.lib_modules()], floor=3)
     aabbtree.r_links(idx, rep)      # RigidBody.aabb() is the root box of its AabbTree: links + refit decide that it is the union of the leaves
